@@ -95,6 +95,8 @@ def main(argv: list[str]) -> None:
     with open(args.options_data, "rb") as f:
         buf = ReadBuffer(f.read())
     options_dict = read_json(buf)
+    # This is sent as a list of pairs to preserve the order of config file sections.
+    options_dict["per_module_options"] = dict(options_dict["per_module_options"])
     disable_error_code = options_dict.pop("disable_error_code", [])
     enable_error_code = options_dict.pop("enable_error_code", [])
     options = Options().apply_changes(options_dict)
